@@ -68,7 +68,7 @@ def tlc_jobs(ctx, quick):
 
 
 # ------------------------------------------------------------------ observation
-def observe_point(B, xq, dqs, res, stage, sp, f, space_name, expected=None, deg=99, want_cd=True, log=True):
+def observe_point(B, xq, dqs, res, stage, sp, f, space_name, expected=None, deg=99, want_cd=True, log=2):
     """f(x), gradient, <grad, d>, derivative(x)(d) at one point.  Returns (x element, gradient element or None)."""
     sig = lambda clause, extra=None: fu.signature(sp, f, clause, extra)
     det = lambda **kw: dict({'stage': stage, 'sp': sp, 'f': f, 'x': xq}, **kw)
@@ -91,7 +91,8 @@ def observe_point(B, xq, dqs, res, stage, sp, f, space_name, expected=None, deg=
     G = B.grad
     interior = expected is None or expected['interior'] or deg == 99
     if G is None or not math.isfinite(fx):
-        res['events'].append(({'k': 'value', 'sp': sp, 'f': f, 'x': xq, 'fx': fu.snapv(fx)}, det(kind='value')))
+        if log:
+            res['events'].append(({'k': 'value', 'sp': sp, 'f': f, 'x': xq, 'fx': fu.snapv(fx)}, det(kind='value')))
         return x, None, fx
     try:
         with np.errstate(all='ignore'):
@@ -130,7 +131,7 @@ def observe_point(B, xq, dqs, res, stage, sp, f, space_name, expected=None, deg=
         ev = {'k': 'grad', 'sp': sp, 'f': f, 'x': xq, 'd': dq, 'g': gq, 'gd': fu.snapv(gd), 'dd': fu.snapv(dd),
               'gdq': q1 or 0, 'ddq': q2 if (q1 is not None and q2 is not None) else (q1 or 0),
               'slackq': fu.REL_SLACKQ, 'fx': fu.snapv(fx)}
-        if log or di == 0:
+        if log == 2 or (log == 1 and di == 0):
             res['events'].append((ev, det(kind='grad', d=dq)))
         # relational clause for functionals whose values the specification cannot differentiate exactly
         smooth = None
@@ -156,7 +157,8 @@ def observe_point(B, xq, dqs, res, stage, sp, f, space_name, expected=None, deg=
                 if smooth and 3 * errs[1] > errs[0] + 3 * floor:
                     res['viol'].append((sig('central-difference-convergence'),
                                         det(d=dq, observed={'e(h)': errs[0], 'e(h/2)': errs[1], '<g,d>': gd})))
-                res['events'].append((cev, det(kind='cdrel', d=dq)))
+                if log:
+                    res['events'].append((cev, det(kind='cdrel', d=dq)))
     return x, g, fx
 
 
@@ -199,6 +201,18 @@ class GB(fu.Built):
             self.grad = None
 
 
+def _loglevel(quick, variant, depth, pi):
+    """How much of a replayed point is also recorded for the TLC trace validation (the comparison with the exported
+    expectation is always complete): 2 = every direction, 1 = first direction, 0 = nothing."""
+    if variant:
+        return 0
+    if quick:
+        return 2 if pi % 8 == 0 else (1 if pi % 2 == 0 else 0)
+    if depth > 1:
+        return 2 if pi % 2 == 0 else 0
+    return 2 if pi % 2 == 0 else 1
+
+
 def _new_res():
     return {'events': [], 'viol': [], 'counts': [], 'classes': set(), 'nograd': 0, 'lipclaims': 0, 'samples': []}
 
@@ -224,14 +238,14 @@ def replay_program(arg):
         for pi, pt in enumerate(sorted(rec['pts'], key=lambda t: json.dumps(t['x']))):
             dqs = [t['d'] for t in sorted(pt['dds'], key=lambda t: json.dumps(t['d']))]
             x, g, fx = observe_point(B, pt['x'], dqs, res, 'replay', sp, f, rec['space'], expected=pt,
-                                     deg=rec['attrs']['deg'], want_cd=True, log=(not quick) or pi % 4 == 0)
+                                     deg=rec['attrs']['deg'], want_cd=True, log=_loglevel(quick, variant, rec['k'], pi))
             if g is not None and any(t.get('sm') for t in pt['dds']):
                 pts.append((pt['x'], x, g))            # Lipschitz pairs: points inside the domain of differentiability
             if not res['samples'] and g is not None and all(fu.known(t) for t in pt['g']) and any(t[0] for t in pt['g']):
                 res['samples'].append({'space': rec['space'], 'program': fu.shape(f), 'x': pt['x'],
                                        'gradient_expected_from_TLC': pt['g'], 'observed': fu.flat(g).tolist()})
         if B.grad is not None:
-            lipschitz(B, pts, res, 'replay', sp, f, rec['space'], cap=4 if quick else 12)
+            lipschitz(B, pts, res, 'replay', sp, f, rec['space'], cap=(4 if quick else 8) if variant == 0 else 0)
         for _, d in res['viol'][n0:]:
             d['variant'] = variant
     return res
